@@ -259,7 +259,7 @@ fn op_fetch(status: u16, body: &[u8]) -> String {
     }
 }
 
-fn gen_reply(r: &mut Rng) -> Vec<u8> {
+pub fn gen_reply(r: &mut Rng) -> Vec<u8> {
     use crate::mi::T;
     let bad_utf8: [&[u8]; 4] = [b"\xff", b"a\x80", b"\xc0\xaf", b"\xed\xa0\x80"];
     let mut top: Vec<(Vec<u8>, usize, T)> = vec![];
